@@ -43,6 +43,9 @@ FAMILIES = [
     [C('\n'), C('\t'), R('[a-z]+')],
     [C('\xa7'), C('\\'), C('a')],
     [C(' '), C('\x01'), S('\\x')],
+    # an OPTIONAL group that begins with a repeated item: the group can be absent
+    [R('([0-9]+)?;'), R('[a-z]+')],
+    [R('b(a*b)?'), C(',')],
 ]
 
 
